@@ -19,8 +19,12 @@
    moves is not constrained.
 
    Identities: leaf Deferred d succeeds with value d / fails with error d; a
-   canceller of kind 2 fires value 10+d, kind 3 error 10+d; kinds 0 (none) and 1
-   (does nothing) give CancelledError.  Outcomes are pairs <<kind, id>>.
+   canceller of kind 2 fires value 10+d, kind 3 error 10+d, kind 4 a non-Exception
+   BaseException 10+d; kinds 0 (none) and 1 (does nothing) give CancelledError.
+   Outcomes are pairs <<kind, id>>; failure kinds: "err" (an Exception subclass), "berr"
+   (a BaseException subclass that is not an Exception), "acan" (asyncio.CancelledError),
+   "cancelled" (twisted's CancelledError).  The specification treats them alike: whatever
+   the body raises uncaught is what its Deferred must fire with.
    Scope (see notes/C05.md): every Deferred is awaited at most once; a nested
    invocation is awaited only by the body that started it; only the driver fires
    or cancels Deferreds, and only between calls.                              *)
@@ -50,11 +54,12 @@ vars == <<cfg, inCall, stack, nG, phase, on, out, res, nres, par, joined, hidden
 None2 == <<"-", 0>>
 NoT   == <<"-", 0>>
 NoReq == [t |-> "-", x |-> 0, o |-> None2]
-Kinds == 0..3
+Kinds == 0..4
+FailKinds == {"err", "berr", "acan"}   \* Exception subclass / BaseException subclass that is not an Exception / asyncio.CancelledError
 Leaves == 1..cfg.nd
 Invs   == 1..cfg.ng
 COutcome(d, k) == IF k \in {0, 1} THEN <<"cancelled", 0>>
-                  ELSE IF k = 2 THEN <<"ok", 10 + d>> ELSE <<"err", 10 + d>>
+                  ELSE IF k = 2 THEN <<"ok", 10 + d>> ELSE IF k = 3 THEN <<"err", 10 + d>> ELSE <<"berr", 10 + d>>
 
 Ev(e, g, x, k, v) == [e |-> e, g |-> g, x |-> x, k |-> k, v |-> v]
 
@@ -100,7 +105,7 @@ Start(m) ==
     /\ UNCHANGED <<cfg, on, out, res, nres, par, joined, hidden, dst, dAw, creq, sysCanc, mayCanc>>
 
 DFire(d, o) ==          \* d.callback(value d) / d.errback(error d)
-    /\ ~inCall /\ d \in Leaves /\ dst[d] = None2 /\ o \in {"ok", "err"}
+    /\ ~inCall /\ d \in Leaves /\ dst[d] = None2 /\ o \in {"ok"} \cup FailKinds
     /\ inCall' = TRUE /\ creq' = [t |-> "f", x |-> d, o |-> <<o, d>>]
     /\ last' = Ev("fire", 0, d, o, 0)
     /\ UNCHANGED <<stack, dst>> /\ U1
@@ -131,7 +136,7 @@ End ==
 -----------------------------------------------------------------------------
 (* Steps of a fire / cancel that user code observes. *)
 CancellerCalled(d, k) ==   \* the canceller of leaf d runs (kinds 1..3)
-    /\ inCall /\ creq.t = "d" /\ creq.x = d /\ k \in {1, 2, 3}
+    /\ inCall /\ creq.t = "d" /\ creq.x = d /\ k \in {1, 2, 3, 4}
     /\ creq' = [creq EXCEPT !.t = "c"]
     /\ last' = Ev("cc", 0, d, "-", 0)
     /\ UNCHANGED <<inCall, stack, dst>> /\ U1
@@ -140,7 +145,7 @@ LeafFires(d, k) ==         \* the first callback of leaf d sees what it fired wi
     /\ inCall /\ creq.x = d /\ dst[d] = None2
     /\ \/ creq.t = "f"
        \/ creq.t = "d" /\ k = 0
-       \/ creq.t = "c" /\ k \in {1, 2, 3}
+       \/ creq.t = "c" /\ k \in {1, 2, 3, 4}
     /\ LET o == IF creq.t = "f" THEN creq.o ELSE COutcome(d, k) IN
        /\ dst' = [dst EXCEPT ![d] = o]
        /\ last' = Ev("in", 0, d, o[1], o[2])
